@@ -12494,3 +12494,96 @@ func ruleGivenDAOUsed(c *Ctx) {
 	}
 	c.Floor("given-dao-used.methods", n, 4)
 }
+
+// ruleScopeFieldUnderBit (C15): the lists a signer carries for its custom scopes mean something only when the matching
+// bit of Scopes is set - the decoder keeps (and the JSON form can deliver) a list next to other scopes, and a witness
+// scoped CalledByEntry with a left-over AllowedContracts must not be valid inside those contracts. In the witness
+// check of package runtime every read of Signer.AllowedContracts / AllowedGroups / Rules lies under a test of the
+// CustomContracts / CustomGroups / Rules bit (nested in the if, or behind a guard that leaves when the bit is absent).
+func ruleScopeFieldUnderBit(c *Ctx) {
+	pk := c.P.Pkg("pkg/core/interop/runtime")
+	if pk == nil {
+		c.Lost("scope-field-under-bit.anchor", "package interop/runtime not found")
+		return
+	}
+	info := pk.TypesInfo
+	bit := map[string]string{"AllowedContracts": "CustomContracts", "AllowedGroups": "CustomGroups", "Rules": "Rules"}
+	mentionsConst := func(e ast.Expr, name string) bool {
+		hit := false
+		ast.Inspect(e, func(x ast.Node) bool {
+			if se, ok := x.(*ast.SelectorExpr); ok && se.Sel.Name == name {
+				if cn, ok := info.ObjectOf(se.Sel).(*types.Const); ok && cn.Pkg() != nil && strings.HasSuffix(cn.Pkg().Path(), "pkg/core/transaction") {
+					hit = true
+				}
+			}
+			return true
+		})
+		return hit
+	}
+	leaves := func(b *ast.BlockStmt) bool {
+		if b == nil || len(b.List) == 0 {
+			return false
+		}
+		switch b.List[len(b.List)-1].(type) {
+		case *ast.ReturnStmt, *ast.BranchStmt:
+			return true
+		}
+		return false
+	}
+	n := 0
+	for _, fd := range c.P.AllFuncDecls() {
+		if fd.Pkg != pk || fd.Decl.Body == nil {
+			continue
+		}
+		fn := shortSym(FuncKey(fd.Obj))
+		var stack []ast.Node
+		ast.Inspect(fd.Decl.Body, func(x ast.Node) bool {
+			if x == nil {
+				stack = stack[:len(stack)-1]
+				return true
+			}
+			stack = append(stack, x)
+			se, ok := x.(*ast.SelectorExpr)
+			if !ok {
+				return true
+			}
+			want, ok := bit[se.Sel.Name]
+			if !ok {
+				return true
+			}
+			fv, ok := info.ObjectOf(se.Sel).(*types.Var)
+			if !ok || !fv.IsField() || !namedTypeIs(info.TypeOf(se.X), "pkg/core/transaction", "Signer") {
+				return true
+			}
+			n++
+			guarded := false
+			for i := len(stack) - 2; i >= 0 && !guarded; i-- {
+				switch p := stack[i].(type) {
+				case *ast.IfStmt:
+					// inside the body (not the else branch) of a test that mentions the bit
+					if i+1 < len(stack) && stack[i+1] == ast.Node(p.Body) && mentionsConst(p.Cond, want) {
+						guarded = true
+					}
+				case *ast.BlockStmt:
+					// behind a guard of the same statement list that leaves when the bit is absent
+					for _, st := range p.List {
+						if i+1 < len(stack) && st == stack[i+1] {
+							break
+						}
+						if is, ok := st.(*ast.IfStmt); ok && mentionsConst(is.Cond, want) && leaves(is.Body) {
+							guarded = true
+						}
+					}
+				}
+			}
+			key := fmt.Sprintf("scope-field-under-bit:%s.%s", fn, se.Sel.Name)
+			if guarded {
+				c.OK(key, c.P.Pos(se.Pos()), "read under a test of transaction."+want)
+			} else {
+				c.Fail(key, c.P.Pos(se.Pos()), fmt.Sprintf("%s reads Signer.%s without a test of the %s bit of Scopes around it: a list left next to other scopes (the decoder and the JSON form keep it) widens the witness - a CalledByEntry signer becomes valid inside every contract of a left-over list", fn, se.Sel.Name, want))
+			}
+			return true
+		})
+	}
+	c.Floor("scope-field-under-bit.reads", n, 3)
+}
